@@ -194,7 +194,7 @@ Example c19_master_example :
 Proof. vm_compute. split; reflexivity. Qed.
 
 Example c19_epoch_timing_example :
-  epoch_tick 100 (mkEpoch false 3 10 40) = (mkEpoch false 4 50 40, TTrigger) /\
+  epoch_tick 100 (mkEpoch false 3 30 40) = (mkEpoch false 4 70 40, TTrigger) /\
   epoch_tick 100 (mkEpoch false 3 10 30) = (mkEpoch false 3 100 30, TSkipped) /\
   epoch_tick 100 (mkEpoch true 0 100 30) = (mkEpoch false 0 70 30, TFresh) /\
   snd (epoch_tick 100 (mkEpoch false 3 70 30)) = TNothing.
